@@ -15,6 +15,12 @@ type OutputBufferConfig struct {
 
 // VerifyConfig verifies the configuration
 func (cfg OutputBufferConfig) VerifyConfig(schema base.LogSchema) error {
+	if cfg.BufferConfig.Value == nil {
+		return fmt.Errorf("buffer is undefined")
+	}
+	if cfg.OutputConfig.Value == nil {
+		return fmt.Errorf("output is undefined")
+	}
 	if err := cfg.BufferConfig.Value.VerifyConfig(); err != nil {
 		return fmt.Errorf("buffer config validation error: %w", err)
 	}
